@@ -134,6 +134,17 @@ func (w *world) honestValue(sid int) any {
 	p := decimal.New(w.price+int64(sid)*10+jitter, -2)
 	switch sid % 3 {
 	case 0:
+		if w.discrete {
+			// three quote shapes around one price: the common one, and two whose bid / ask medians differ from it
+			base := decimal.New(w.price+int64(sid)*10, -2)
+			switch g.R.Intn(5) {
+			case 3:
+				return svJ(&llo.Quote{Bid: base.Sub(decimal.New(3, 0)), Benchmark: base.Sub(decimal.New(1, 0)), Ask: base.Add(decimal.New(3, 0))})
+			case 4:
+				return svJ(&llo.Quote{Bid: base, Benchmark: base.Add(decimal.New(1, 0)), Ask: base.Add(decimal.New(2, 0))})
+			}
+			return svJ(&llo.Quote{Bid: base.Sub(decimal.New(2, 0)), Benchmark: base, Ask: base.Add(decimal.New(2, 0))})
+		}
 		return svJ(&llo.Quote{Bid: p.Sub(decimal.New(1, 0)), Benchmark: p, Ask: p.Add(decimal.New(1, 0))})
 	case 1:
 		return svJ(llo.ToDecimal(p))
